@@ -262,7 +262,7 @@ def small_record(fmt, width, idx):
 # VCF with typed INFO and genotype columns
 # ---------------------------------------------------------------------------------------
 
-_INFO_IDS = ["DP", "DP2", "AF", "AFX", "DB", "D", "AN", "NS", "STR", "H2"]
+_INFO_IDS = ["DP", "DP2", "AF", "AFX", "DB", "D", "AN", "NS", "STR", "H2", "MQRankSum", "A"]
 def related_info_decl(draw, decl):
     """The same INFO keys and types in the same order, with the Number of some keys changed between scalar and list."""
     out = []
